@@ -171,9 +171,9 @@ class _Rpc:
       return fn
 
     def call(*a, **k):
-      self._r.last_rpc = None
+      self._r._tl.last_rpc = None
       v = fn(*a, **k)
-      self._r.last_rpc = (name, type(v).__name__)
+      self._r._tl.last_rpc = (name, type(v).__name__)
       return v
     return call
 
@@ -197,18 +197,22 @@ class RealRunner:
     self.clients = []
     self.max_id_seen = 0
     self.es_ids = set()
+    import threading
+    self._tl = threading.local()
 
   def sname(self, r):
     return 'owners/%s/studies/%s' % (r.get('owner', 'o'), r.get('sid', 's'))
 
   def step(self, r):
-    self.last_rpc = None
+    # per-thread: the scheduler (C04) drives one runner from several threads
+    self._tl.last_rpc = None
     try:
       return self._step(r)
     except Exception as e:  # pylint: disable=broad-except
-      if self.last_rpc is not None:
+      last = getattr(self._tl, 'last_rpc', None)
+      if last is not None:
         # the RPC returned; its response is not of the declared type
-        return {'k': 'malformed', 'rpc': self.last_rpc[0], 'type': self.last_rpc[1]}
+        return {'k': 'malformed', 'rpc': last[0], 'type': last[1]}
       return err_json(e)
 
   def _step(self, r):
